@@ -88,7 +88,7 @@ pub fn obs_of(o: &Oracle, cp: u32) -> Value {
         "idc": guarded(|| json!(class_value_char("Id", c))),
         "ff": class_value_g("Ff", cp),
         "ffc": guarded(|| json!(class_value_char("Ff", c))),
-        "reg": registered_rule(cp),
+        "reg": registry_obs(cp),
         "vir": ctx_obs("zwj", &[cp, 0x200d], 1),
         "greek": ctx_obs("keraia", &[0x0375, cp], 0),
         "hebrew": ctx_obs("hebrew", &[cp, 0x05f3], 1),
